@@ -556,6 +556,7 @@ const (
 	keyWithdrawOrder     = "revert re-appends withdraw records removed with RemoveWithdrawRecords at the end of the queue instead of their old positions"
 	keyDelegationAlias   = "revert does not restore a validator's delegation list after UpdateDelegation (PartialCopy shares the Delegations slice that UpdateDelegationFrom edits in place)"
 	keyCreateOverRemoved = "revert of a CreateValidator that replaced a removed validator wipes the address: the removed record and its index entry are not put back (validatorCreateChange)"
+	keyStatSaturation    = "a revert across UpdateValidator / RemoveValidator does not restore the statistics when they do not cover the record (saturating subtraction in ValKindStat after RemoveValidator was counted twice)"
 	keyRevertFails       = "reverting to a valid snapshot panics"
 	keyNotRestored       = "state after RevertToSnapshot differs from the state at Snapshot"
 )
@@ -568,12 +569,18 @@ type snapRec struct {
 	ripemd  bool // the RIPEMD precompile was touched while empty
 	dlg     bool // an UpdateDelegation happened since
 	crdel   bool // a CreateValidator replaced a deleted record of the live map since
+	statbad bool // a validator call met statistics that do not cover its record
 	opIndex int
 }
 
 type oracle struct {
 	stack []*snapRec
 	hits  []map[string]interface{}
+	// RemoveValidator took effect somewhere in this history: the removal is counted a second time by
+	// IntermediateRoot (or a second RemoveValidator), after which the saturating statistics depend on
+	// the order in which Go iterates validatorObjectsDirty, so even the validator root of one state is
+	// not a function of the state any more
+	tainted bool
 }
 
 func (o *oracle) mark(f func(*snapRec)) {
@@ -591,6 +598,7 @@ func (o *oracle) step(e *env, h []Op, i int, op Op, ret int64, panicked bool, ms
 		}
 	case "rmval":
 		if ret == 1 {
+			o.tainted = true
 			o.mark(func(s *snapRec) { s.rmval = true })
 		}
 	case "rmwd":
@@ -649,14 +657,21 @@ func (o *oracle) step(e *env, h []Op, i int, op Op, ret int64, panicked bool, ms
 			switch {
 			case rec.ripemd && in(it.tag, "root", "book"):
 				used["ripemd"] = append(used["ripemd"], x)
+			case rec.crdel && (in(it.tag, "val", "index", "stat", "valroot", "book") || copyPanic):
+				used["crdel"] = append(used["crdel"], x)
+			case rec.statbad && in(it.tag, "stat", "valroot"):
+				used["statbad"] = append(used["statbad"], x)
+			case o.tainted && !rec.rmval && (in(it.tag, "val", "index", "stat", "valroot", "book") || copyPanic):
+				// aftermath of an earlier RemoveValidator: double-counted removal with saturating (and
+				// iteration-order dependent) statistics, a wiped live entry that lets the trie record show
+				// through, an index that lost a validator the trie still has
+				used["statbad"] = append(used["statbad"], x)
 			case rec.rmval && (in(it.tag, "val", "stat", "index", "valroot") || copyPanic):
 				used["rmval"] = append(used["rmval"], x)
 			case rec.rmwd && in(it.tag, "queue", "valroot"):
 				used["rmwd"] = append(used["rmwd"], x)
 			case rec.dlg && (in(it.tag, "val", "valroot") || copyPanic):
 				used["dlg"] = append(used["dlg"], x)
-			case rec.crdel && (in(it.tag, "index", "stat", "valroot", "book") || copyPanic):
-				used["crdel"] = append(used["crdel"], x)
 			default:
 				rest = append(rest, x)
 			}
@@ -665,6 +680,12 @@ func (o *oracle) step(e *env, h []Op, i int, op Op, ret int64, panicked bool, ms
 		case len(rest) > 0:
 			o.hit(keyNotRestored, strings.Join(rest, " | "), h, i)
 			return "revert_valid_NOT_RESTORED"
+		case len(used["crdel"]) > 0:
+			o.hit(keyCreateOverRemoved, strings.Join(all, " | "), h, i)
+			return "revert_valid_known_create_over_removed"
+		case len(used["statbad"]) > 0:
+			o.hit(keyStatSaturation, strings.Join(all, " | "), h, i)
+			return "revert_valid_known_statistics_saturation"
 		case len(used["rmval"]) > 0:
 			o.hit(keyRemoveValidator, strings.Join(all, " | "), h, i)
 			return "revert_valid_known_remove_validator"
@@ -674,9 +695,6 @@ func (o *oracle) step(e *env, h []Op, i int, op Op, ret int64, panicked bool, ms
 		case len(used["dlg"]) > 0:
 			o.hit(keyDelegationAlias, strings.Join(all, " | "), h, i)
 			return "revert_valid_known_delegation_alias"
-		case len(used["crdel"]) > 0:
-			o.hit(keyCreateOverRemoved, strings.Join(all, " | "), h, i)
-			return "revert_valid_known_create_over_removed"
 		case len(d) > 0:
 			return "revert_valid_ripemd_exception"
 		}
@@ -738,10 +756,13 @@ func valCond(e *env, o Op) string {
 		case live && !del:
 			return "ok"
 		case live && del:
+			if fixedCreate {
+				return "ok"
+			}
 			return "fail:create over a deleted live record"
 		case v != nil:
 			return "fail:lazy load"
-		case in.Index[a]:
+		case in.Index[a] && !fixedCreate:
 			return "fail:address already in index"
 		case !statOK():
 			return "fail:negative statistics"
@@ -795,6 +816,9 @@ func runHistory(h []Op, withOracle bool) (trace [][]string, or *oracle, classes 
 		if withOracle && len(or.stack) > 0 {
 			if c := valCond(e, op); c != "" {
 				classes = append(classes, "side_condition_"+op.K+":"+c)
+				if strings.HasPrefix(c, "fail:statistics") || strings.HasPrefix(c, "fail:negative") || strings.HasPrefix(c, "fail:remove of an already") {
+					or.mark(func(s *snapRec) { s.statbad = true })
+				}
 			}
 		}
 		ret, panicked, msg := e.exec(op)
@@ -1422,7 +1446,9 @@ func opsKey(ops []Op) string {
 }
 
 func doGen(seed uint64, n int, outDir, corpusDir, tier string) {
-	r := vf.NewRng(seed)
+	// vf.NewRng(seed+1) is vf.NewRng(seed) advanced by one draw (the shards of one run use seeds
+	// 7919 apart); start from a mixed value so that the streams of different seeds do not overlap
+	r := vf.NewRng(vf.NewRng(seed).U64())
 	res := vf.NewResult("C09", seed)
 	fa, fb, fc := treeFixed()
 	fixedFlag, fixedCreate = fa, fc
